@@ -1,0 +1,54 @@
+//go:build verif
+
+package chunking
+
+// Contracts for govc (comment-only; compiled only with -tags verif). Property C28.
+//
+//@ spec import rqlite_progress
+//
+//@ type Chunker
+//@   monitor statsMu protects sequenceNum, finished, nWritten
+//@   invariant [seq-nonneg] self.sequenceNum >= 0
+//
+// Next: every byte the reader returned in this call is handed to the gzip writer exactly once
+// (ghost nRead == nWrit == totalRead); chunk k carries sequence number k and the stream id; a
+// chunk is marked last iff the chunker will produce no further chunk; a read error other than
+// EOF is reported, never dropped; an empty stream yields io.EOF and no chunk.
+//@ func (*Chunker) Next
+//@   requires [recv] c != nil && c.chunkSize >= 1
+//@   ghost var nRead int = 0
+//@   ghost var nWrit int = 0
+//@   ghost var pendingErr error = nil
+//@   ghost update @c.r.Read: nRead = nRead + result0
+//@   ghost update @c.r.Read: pendingErr = ite(result1 != nil && result1 != io.EOF, result1, pendingErr)
+//@   assert @gw.Write: [writes-what-was-read] len(arg0) == n && n > 0 && nWrit + n == nRead
+//@   ghost update @gw.Write: nWrit = nWrit + len(arg0)
+//@   loop 1 invariant [all-written] nRead == nWrit && totalRead == nRead && totalRead >= 0
+//@   loop 1 invariant [state] !c.finished && c.sequenceNum == atlock(c.sequenceNum) && !atlock(c.finished)
+//@   loop 1 invariant [no-dropped-error] pendingErr == nil
+//@   ensures [read-error-reported] pendingErr != nil ==> result1 != nil
+//@   ensures [all-written] result1 == nil ==> nRead == nWrit
+//@   ensures [seq] result1 == nil ==> (result0 != nil && result0.SequenceNum == atlock(c.sequenceNum) + 1 && result0.StreamId == c.streamID && !result0.Abort)
+//@   ensures [seq-advances] (result1 == nil && nRead > 0) ==> c.sequenceNum == atlock(c.sequenceNum) + 1
+//@   ensures [last-then-finished] (result1 == nil && result0.IsLast) ==> c.finished
+//@   ensures [finished-then-last] (result1 == nil && c.finished) ==> result0.IsLast
+//@   ensures [after-last-eof] atlock(c.finished) ==> (result1 == io.EOF && result0 == nil)
+//@   ensures [empty-stream] (result1 == nil && nRead == 0) ==> atlock(c.sequenceNum) > 0
+//
+//@ func (*Chunker) Abort
+//@   requires [recv] c != nil
+//@   ensures [abort] result != nil && result.Abort && result.StreamId == c.streamID
+//
+// WriteChunk: a chunk is accepted iff it belongs to the stream of the first chunk and carries the
+// next sequence number; then the sequence number advances and the last flag is returned.
+//@ func (*Dechunker) WriteChunk
+//@   requires [recv] d != nil && chunk != nil
+//@   ghost var sid0 string = d.streamID
+//@   ghost var seq0 int = d.seqNum
+//@   ghost var csid string = chunk.StreamId
+//@   ghost var cseq int = chunk.SequenceNum
+//@   ghost var clast bool = chunk.IsLast
+//@   ensures [foreign-rejected] (sid0 != "" && sid0 != csid) ==> result1 != nil
+//@   ensures [out-of-order-rejected] cseq != seq0 + 1 ==> result1 != nil
+//@   ensures [accepted] result1 == nil ==> ((sid0 == "" || sid0 == csid) && cseq == seq0 + 1 && result0 == clast)
+//@   assert @io.Copy: [in-order-only] (sid0 == "" || sid0 == csid) && cseq == seq0 + 1
